@@ -44,6 +44,12 @@ def check_pair(opn, v, x, shape):
         got, want = _out(f, Quantity(v, 'm'), x), _out(f, v, x)
     elif shape == 'xQ':
         got, want = _out(f, x, Quantity(v, 'm')), _out(f, x, v)
+    elif shape == 'QQd':      # arithmetic ignores the units: two different ones, or one absent
+        got, want = _out(f, Quantity(v, 'A'), Quantity(x, 'V')), _out(f, v, x)
+    elif shape == 'QQn':
+        got, want = _out(f, Quantity(v, 'kW'), Quantity(x, None)), _out(f, v, x)
+    elif shape == 'nQQ':
+        got, want = _out(f, Quantity(v, None), Quantity(x, 'kW')), _out(f, v, x)
     else:
         got, want = _out(f, Quantity(v, 'm'), Quantity(x, 'm')), _out(f, v, x)
     if not _same(got, want):
@@ -81,7 +87,7 @@ def bounded(tier, seed):
         for v, x in itertools.product(CAT, repeat=2):
             if opn in ('**', '<<') and any(isinstance(t, int) and abs(t) > 10 ** 6 for t in (v, x)):
                 continue      # astronomically large results: not a property of Quantity
-            for shape in ('Qx', 'xQ', 'QQ'):
+            for shape in ('Qx', 'xQ', 'QQ') + (() if opn in ('<', '<=', '==', '!=', '>=', '>') else ('QQd', 'QQn', 'nQQ')):
                 cases += 1
                 r = check_pair(opn, v, x, shape)
                 if r and len(failures) < 12:
